@@ -28,6 +28,7 @@ package main
 
 import (
 	"fmt"
+	"go/constant"
 	"go/token"
 	"go/types"
 	"os"
@@ -2083,4 +2084,24 @@ func (w *World) immutableField(f *types.Var) bool {
 		s.immWritten = written
 	}
 	return !s.immWritten[f]
+}
+
+// zeroConstAny: zeroConstOf extended to basic types (0, "", false).
+func zeroConstAny(t types.Type) ssa.Value {
+	if z := zeroConstOf(t); z != nil {
+		return z
+	}
+	if b, ok := t.Underlying().(*types.Basic); ok {
+		switch {
+		case b.Info()&types.IsString != 0:
+			return ssa.NewConst(constant.MakeString(""), t)
+		case b.Info()&types.IsBoolean != 0:
+			return ssa.NewConst(constant.MakeBool(false), t)
+		case b.Info()&types.IsInteger != 0:
+			return ssa.NewConst(constant.MakeInt64(0), t)
+		case b.Info()&types.IsFloat != 0:
+			return ssa.NewConst(constant.MakeFloat64(0), t)
+		}
+	}
+	return nil
 }
